@@ -102,6 +102,23 @@ Proof.
     field. assumption.
 Qed.
 
+Lemma derivable_pt_lim_ext (f g : R -> R) x l :
+  (forall t, f t = g t) -> derivable_pt_lim f x l -> derivable_pt_lim g x l.
+Proof.
+  intros E D eps He. destruct (D eps He) as [d Hd]. exists d. intros h H0 H1.
+  rewrite <- !E. apply Hd; assumption.
+Qed.
+
+Lemma detonRes_derivable_pt_lim (pL eL : R -> R) vw pH eH tm dp de :
+  derivable_pt_lim pL tm dp -> derivable_pt_lim eL tm de -> eH + pL tm <> 0 ->
+  derivable_pt_lim (fun t => detonRes vw pH eH (pL t) (eL t)) tm
+    (vw ^ 2 * (- de) - (((- dp) * (eL tm + pH) + (pH - pL tm) * de) * (eH + pL tm)
+                         - (pH - pL tm) * (eL tm + pH) * dp) / (eH + pL tm) ^ 2).
+Proof.
+  intros Hp He H2. apply is_derive_Reals.
+  apply detonRes_is_derive; try assumption; apply is_derive_Reals; assumption.
+Qed.
+
 Lemma detonRes_slope_at_root vw pH eH pL eL dp de :
   de <> 0 -> pH + eL <> 0 -> eH - eL <> 0 -> eH + pL <> 0 ->
   detonRes vw pH eH pL eL = 0 ->
